@@ -458,6 +458,72 @@ Proof.
   injection Hv as <-. injection Hl as <-. rewrite E; apply set_tags_idem.
 Qed.
 
+(** * The boolean deep equality is sound *)
+
+Lemma json_eqb_sound : forall a b, json_eqb a b = true -> a = b.
+Proof.
+  fix IH 1.
+  intros [|x|x|x|x|x] [|y|y|y|y|y]; simpl; try discriminate; intros H.
+  - reflexivity.
+  - f_equal. apply Bool.eqb_prop; exact H.
+  - f_equal. apply Z.eqb_eq; exact H.
+  - f_equal. apply name_eqb_eq; exact H.
+  - f_equal. revert y H. induction x as [|a x IHx]; intros [|b y]; try discriminate;
+      [reflexivity|].
+    intros H. apply andb_prop in H. destruct H as [H1 H2].
+    f_equal; [apply IH, H1|apply IHx, H2].
+  - f_equal. revert y H. induction x as [|[ka a] x IHx]; intros [|[kb b] y]; try discriminate;
+      [reflexivity|].
+    intros H. apply andb_prop in H. destruct H as [H12 H3].
+    apply andb_prop in H12. destruct H12 as [H1 H2].
+    apply name_eqb_eq in H1. subst kb.
+    f_equal; [f_equal; apply IH, H2|apply IHx, H3].
+Qed.
+
+Lemma meta_eqb_sound (x y : meta) : meta_eqb x y = true -> x = y.
+Proof.
+  revert y; induction x as [|[ka a] x IH]; intros [|[kb b] y]; simpl; try discriminate;
+    [reflexivity|].
+  intros H. apply andb_prop in H. destruct H as [H12 H3].
+  apply andb_prop in H12. destruct H12 as [H1 H2].
+  apply name_eqb_eq in H1. subst kb. apply json_eqb_sound in H2. subst b.
+  f_equal. apply IH, H3.
+Qed.
+
+Lemma list_eqb_sound (A : Type) (eqb : A -> A -> bool) :
+  (forall a b, eqb a b = true -> a = b) -> forall x y, list_eqb eqb x y = true -> x = y.
+Proof.
+  intros Hs; induction x as [|a x IH]; intros [|b y]; simpl; try discriminate; [reflexivity|].
+  intros H. apply andb_prop in H. destruct H as [H1 H2]. f_equal; [apply Hs, H1|apply IH, H2].
+Qed.
+
+Lemma node3_eqb_sound a b : node3_eqb a b = true -> a = b.
+Proof.
+  destruct a as [[i t] m], b as [[i' t'] m']; simpl. intros H.
+  apply andb_prop in H. destruct H as [H12 H3]. apply andb_prop in H12. destruct H12 as [H1 H2].
+  apply name_eqb_eq in H1. apply meta_eqb_sound in H3.
+  destruct (vtype_eqb_spec t t'); [|discriminate]. congruence.
+Qed.
+
+Lemma edge4_eqb_sound a b : edge4_eqb a b = true -> a = b.
+Proof.
+  destruct a as [[[s d] t] m], b as [[[s' d'] t'] m']; simpl. intros H.
+  apply andb_prop in H. destruct H as [H123 H4]. apply andb_prop in H123. destruct H123 as [H12 H3].
+  apply andb_prop in H12. destruct H12 as [H1 H2].
+  apply name_eqb_eq in H1. apply name_eqb_eq in H2. apply meta_eqb_sound in H4.
+  destruct (etype_eqb_spec t t'); [|discriminate]. congruence.
+Qed.
+
+Theorem deep_eqb_sound g h : deep_eqb g h = true -> deep_eq_state g h.
+Proof.
+  unfold deep_eqb, deep_eq_state. intros H.
+  apply andb_prop in H. destruct H as [H12 H3]. apply andb_prop in H12. destruct H12 as [H1 H2].
+  split; [|split].
+  - apply (list_eqb_sound _ node3_eqb_sound), H1.
+  - apply (list_eqb_sound _ edge4_eqb_sound), H2.
+  - apply meta_eqb_sound, H3.
+Qed.
+
 (** * Decoding what [to_dict] wrote *)
 
 Lemma vtype_of_str_str t : vtype_of_str (vtype_str t) = Some t.
@@ -918,6 +984,63 @@ Section Proofs.
 
   (** ** The core of the round trip, generic in the validation argument [J], in the edge-type
       override of the Skeleton view and in the presence of the graph metadata *)
+  Lemma core_gen k' k g v ovr (withmeta : bool) (J : list edge -> graph -> Prop) :
+    let mm : meta := if withmeta then gmeta g else [] in
+    Inv parse k g ->
+    (k' = TS -> forall n, In n (gnodes g) -> parse (nid n) <> None) ->
+    map (retag3 k') (v_nodes g) = v_nodes g ->
+    (forall e, In e (gsrc g) -> exists a b,
+       decode_edge parse k' (edge_json k g true ovr e)
+       = Ok ((esrc e, Some a), (edst e, Some b), ty_of ovr e, emeta e)) ->
+    (k' = TS -> forall e, In e (gsrc g) -> exists ls ld,
+       node_lag g (esrc e) = Some ls /\ node_lag g (edst e) = Some ld /\ (ls <= ld)%Z) ->
+    (forall g1,
+       fold_left (add_node_step parse fmt k') (map (node_json k true) (nodes_sorted g))
+         (Ok (empty_graph mm)) = Ok g1 -> J [] g1) ->
+    (forall done h e, J done h -> EdgesBuilt (v_nodes g) mm done h -> In e (gsrc g) ->
+       add_edge_step parse fmt k' false (Ok h) (edge_json k g true ovr e)
+       = Ok (insert_edge h (retype ovr e)) ->
+       val_ok v h (retype ovr e) /\ J (done ++ [retype ovr e]) (insert_edge h (retype ovr e))) ->
+    exists g', from_dict parse fmt k' (dict_json k g true ovr withmeta) v = Ok g'
+      /\ EdgesBuilt (v_nodes g) mm (map (retype ovr) (sorted_edges g)) g'
+      /\ J (map (retype ovr) (sorted_edges g)) g'.
+  Proof.
+    intros mm HI Hparse Hretag Hdecode Hlags HJ0 HJstep.
+    pose proof (inv_nodup_nodes HI) as Hnd.
+    rewrite from_dict_dict_json. fold mm.
+    destruct (@nodes_stage k' k g mm Hnd Hparse) as (g1 & E1 & N1 & S1 & D1 & M1).
+    rewrite E1. cbn [bind]. rewrite Hretag in N1.
+    set (items := map (fun e => (edge_json k g true ovr e, retype ovr e)) (sorted_edges g)).
+    assert (Hfst : map fst items = map (edge_json k g true ovr) (sorted_edges g)).
+    { unfold items; rewrite map_map; reflexivity. }
+    assert (Hsnd : map snd items = map (retype ovr) (sorted_edges g)).
+    { unfold items; rewrite map_map; reflexivity. }
+    assert (Hkeys : NoDup (map edge_key (sorted_edges g))).
+    { eapply Permutation_NoDup; [apply Permutation_map, sorted_edges_perm_gsrc|].
+      exact (inv_nodup_keys HI). }
+    destruct (@add_edges_fold k' v (v_nodes g) mm J items [] g1) as (g' & E' & B' & J').
+    - unfold EdgesBuilt; auto.
+    - apply HJ0; exact E1.
+    - intros it Hin. apply in_map_iff in Hin. destruct Hin as (e & <- & He). cbn [fst snd].
+      apply sorted_edges_in in He. apply (Hdecode e He).
+    - cbn [app]. rewrite Hsnd, map_key_retype. exact Hkeys.
+    - cbn [app]. rewrite Hsnd. intros e e' He He'.
+      apply in_map_iff in He. destruct He as (e0 & <- & He0).
+      apply in_map_iff in He'. destruct He' as (e0' & <- & He0').
+      apply sorted_edges_in in He0. apply sorted_edges_in in He0'.
+      cbn [retype edge_key esrc edst]. intros Ek.
+      apply (inv_noreverse HI e0 He0). rewrite <- Ek.
+      apply (in_map edge_key (gsrc g) e0' He0').
+    - intros it Hin. apply in_map_iff in Hin. destruct Hin as (e & <- & He). cbn [snd retype esrc edst].
+      apply sorted_edges_in in He. rewrite !v_nodes_ids. apply (inv_endpoints HI e He).
+    - intros Ek it Hin. apply in_map_iff in Hin. destruct Hin as (e & <- & He).
+      cbn [snd retype esrc edst]. apply sorted_edges_in in He.
+      rewrite !(fun i => @lag3_v_nodes g i Hnd). apply (Hlags Ek e He).
+    - intros done' h' it HJd HBd Hin Hun. apply in_map_iff in Hin. destruct Hin as (e & <- & He).
+      cbn [fst snd] in *. apply sorted_edges_in in He. apply HJstep; assumption.
+    - exists g'. rewrite Hfst in E'. cbn [app] in B', J'. rewrite Hsnd in B', J'. auto.
+  Qed.
+
   Lemma roundtrip_core k g v ovr (withmeta : bool) (J : list edge -> graph -> Prop) :
     let mm : meta := if withmeta then gmeta g else [] in
     Inv parse k g -> (k = TS -> TagsStable g) ->
@@ -932,42 +1055,12 @@ Section Proofs.
       /\ EdgesBuilt (v_nodes g) mm (map (retype ovr) (sorted_edges g)) g'
       /\ J (map (retype ovr) (sorted_edges g)) g'.
   Proof.
-    intros mm HI HT HJ0 HJstep.
-    pose proof (inv_nodup_nodes HI) as Hnd.
-    rewrite from_dict_dict_json. fold mm.
-    destruct (@nodes_stage k k g mm Hnd) as (g1 & E1 & N1 & S1 & D1 & M1).
-    { intros Ek n Hn. subst k.
-      destruct (ts_nodeok (inv_ts HI eq_refl) n Hn) as (vv & l & P & _). congruence. }
-    rewrite E1. cbn [bind]. rewrite (@retag3_v_nodes k g HI HT) in N1.
-    set (items := map (fun e => (edge_json k g true ovr e, retype ovr e)) (sorted_edges g)).
-    assert (Hfst : map fst items = map (edge_json k g true ovr) (sorted_edges g)).
-    { unfold items; rewrite map_map; reflexivity. }
-    assert (Hsnd : map snd items = map (retype ovr) (sorted_edges g)).
-    { unfold items; rewrite map_map; reflexivity. }
-    assert (Hkeys : NoDup (map edge_key (sorted_edges g))).
-    { eapply Permutation_NoDup; [apply Permutation_map, sorted_edges_perm_gsrc|].
-      exact (inv_nodup_keys HI). }
-    destruct (@add_edges_fold k v (v_nodes g) mm J items [] g1) as (g' & E' & B' & J').
-    - unfold EdgesBuilt; auto.
-    - apply HJ0; exact E1.
-    - intros it Hin. apply in_map_iff in Hin. destruct Hin as (e & <- & He). cbn [fst snd].
-      apply sorted_edges_in in He. apply (@decode_edge_roundtrip k g ovr e HI He).
-    - cbn [app]. rewrite Hsnd, map_key_retype. exact Hkeys.
-    - cbn [app]. rewrite Hsnd. intros e e' He He'.
-      apply in_map_iff in He. destruct He as (e0 & <- & He0).
-      apply in_map_iff in He'. destruct He' as (e0' & <- & He0').
-      apply sorted_edges_in in He0. apply sorted_edges_in in He0'.
-      cbn [retype edge_key esrc edst]. intros Ek.
-      apply (inv_noreverse HI e0 He0). rewrite <- Ek.
-      apply (in_map edge_key (gsrc g) e0' He0').
-    - intros it Hin. apply in_map_iff in Hin. destruct Hin as (e & <- & He). cbn [snd retype esrc edst].
-      apply sorted_edges_in in He. rewrite !v_nodes_ids. apply (inv_endpoints HI e He).
-    - intros Ek it Hin. apply in_map_iff in Hin. destruct Hin as (e & <- & He).
-      cbn [snd retype esrc edst]. apply sorted_edges_in in He.
-      rewrite !(fun i => @lag3_v_nodes g i Hnd). subst k. apply (ts_time (inv_ts HI eq_refl) e He).
-    - intros done' h' it HJd HBd Hin Hun. apply in_map_iff in Hin. destruct Hin as (e & <- & He).
-      cbn [fst snd] in *. apply sorted_edges_in in He. apply HJstep; assumption.
-    - exists g'. rewrite Hfst in E'. cbn [app] in B', J'. rewrite Hsnd in B', J'. auto.
+    intros mm HI HT HJ0 HJstep. apply core_gen; try assumption.
+    - intros Ek n Hn. subst k.
+      destruct (ts_nodeok (inv_ts HI eq_refl) n Hn) as (vv & l & P & _). congruence.
+    - apply (@retag3_v_nodes k g HI HT).
+    - intros e He. apply (@decode_edge_roundtrip k g ovr e HI He).
+    - intros Ek e He. subst k. apply (ts_time (inv_ts HI eq_refl) e He).
   Qed.
 
   (** * [to_dict] is defined on every state satisfying the invariant *)
@@ -1453,6 +1546,115 @@ Section Proofs.
       apply fold_err. intros; reflexivity.
   Qed.
 
+  (** * The Skeleton view
+
+      [Skeleton.from_dict(d, graph_class)] runs the validating [from_dict]; on a skeleton
+      dictionary every edge is undirected, no node ever gets an inbound directed edge, and the
+      cycle check passes after one turn of its loop. *)
+  Lemma add_nodes_ninb k : forall js g0 g1,
+    (forall n, In n (gnodes g0) -> ninb n = []) ->
+    fold_left (add_node_step parse fmt k) js (Ok g0) = Ok g1 ->
+    forall n, In n (gnodes g1) -> ninb n = [].
+  Proof.
+    induction js as [|j js IH]; intros g0 g1 H0; cbn [fold_left].
+    - intros [= <-]; exact H0.
+    - destruct (add_node_step parse fmt k (Ok g0) j) as [g0'|e] eqn:E.
+      + apply IH. unfold add_node_step in E; cbn [bind] in E.
+        destruct (decode_node parse k j) as [[[id vt] m]|]; cbn [bind] in E; [|discriminate].
+        cbn [run_op] in E. unfold lift, add_node_obj in E.
+        destruct (node_exists g0 id); [discriminate|].
+        destruct (mk_node parse k id vt m) as [nn|] eqn:Mk; cbn [bind] in E; [|discriminate].
+        assert (Hnn : ninb nn = []).
+        { unfold mk_node in Mk. destruct k; [injection Mk as <-; reflexivity|].
+          destruct (parse id) as [[vv l]|]; [injection Mk as <-; reflexivity|discriminate]. }
+        assert (Hg : gnodes g0' = gnodes g0 ++ [nn]).
+        { unfold idx_add in E. destruct k.
+          - cbn in E. injection E as <-. reflexivity.
+          - destruct (meta_lag (nmeta nn)), (meta_var (nmeta nn)); cbn in E; try discriminate.
+            injection E as <-. reflexivity. }
+        intros n Hn. rewrite Hg in Hn. apply in_app_or in Hn.
+        destruct Hn as [Hn|[<-|[]]]; [apply H0, Hn|exact Hnn].
+      + rewrite fold_err; [discriminate|]. intros; reflexivity.
+  Qed.
+
+  Lemma depends_no_inbound h d :
+    (forall n, In n (gnodes h) -> ninb n = []) -> In d (node_ids h) ->
+    depends_on_itself h d = Some false.
+  Proof.
+    intros Hno Hd. unfold depends_on_itself. rewrite Nat.add_comm. cbn [Nat.add dep_loop].
+    rewrite name_eqb_refl. cbn [negb andb mem existsb].
+    destruct (@get_node_in h d Hd) as (n & Gn & Hn & _).
+    unfold inb_of. rewrite Gn, (Hno n Hn). reflexivity.
+  Qed.
+
+  Lemma group_edges_retype ovr es :
+    group_edges (map (retype ovr) es)
+    = map (fun sg : name * list edge => (fst sg, map (retype ovr) (snd sg))) (group_edges es).
+  Proof.
+    induction es as [|e es IH]; [reflexivity|].
+    cbn [map group_edges]. rewrite IH.
+    destruct (group_edges es) as [|[s grp] rest]; [reflexivity|].
+    cbn [map fst snd retype esrc]. destruct (name_eqb (esrc e) s); reflexivity.
+  Qed.
+
+  Lemma isort_retype ovr es :
+    isort pair_leb_e (map (retype ovr) es) = map (retype ovr) (isort pair_leb_e es).
+  Proof. symmetry. exact (map_isort (retype ovr) pair_leb_e es). Qed.
+
+  (** the state [g] with every edge retyped *)
+  Definition retype_graph (ovr : option etype) (mm : meta) (g : graph) : graph :=
+    {| gnodes := gnodes g; gsrc := map (retype ovr) (gsrc g); gdst := map (retype ovr) (gdst g);
+       gmeta := mm; glag := glag g; gvar := gvar g |}.
+
+  Lemma skeleton_to_dict_retype k g t mm im :
+    skeleton_to_dict k (retype_graph (Some t) mm g) im = skeleton_to_dict k g im.
+  Proof.
+    unfold skeleton_to_dict.
+    assert (Hdef : to_dict_defined k (retype_graph (Some t) mm g) = to_dict_defined k g).
+    { unfold to_dict_defined. cbn [retype_graph gnodes gsrc]. rewrite forallb_map. reflexivity. }
+    rewrite Hdef. destruct (to_dict_defined k g); [|reflexivity].
+    do 3 f_equal. f_equal. f_equal. unfold edges_json, sorted_edges. cbn [retype_graph gsrc].
+    rewrite isort_retype, group_edges_retype, map_map. f_equal.
+    apply map_ext. intros [s grp]. cbn [fst snd]. rewrite map_map. reflexivity.
+  Qed.
+
+  Theorem skeleton_roundtrip k g :
+    Inv parse k g -> (k = TS -> TagsStable g) ->
+    exists j g', skeleton_to_dict k g true = Ok j
+      /\ skeleton_from_dict parse fmt k j = Ok g'
+      /\ v_nodes g' = v_nodes g
+      /\ v_edges g' = map (retype (Some Und)) (v_edges g)
+      /\ skeleton_to_dict k g' true = Ok j.
+  Proof.
+    intros HI HT.
+    set (J := fun (_ : list edge) (h : graph) => forall n, In n (gnodes h) -> ninb n = []).
+    destruct (@roundtrip_core k g true (Some Und) false J HI HT) as (g' & E & B & _).
+    - intros g1 E1. unfold J. eapply add_nodes_ninb; [|exact E1]. intros n [].
+    - intros done h e HJ HB He _. unfold J in *.
+      assert (Hn : gnodes (insert_edge h (retype (Some Und) e)) = gnodes h) by reflexivity.
+      split; [|rewrite Hn; exact HJ].
+      right. apply depends_no_inbound; [rewrite Hn; exact HJ|].
+      destruct HB as (HL & _). unfold node_ids. rewrite Hn, <- map_id3_node3, HL.
+      apply v_nodes_ids. apply (inv_endpoints HI e He).
+    - exists (dict_json k g true (Some Und) false), g'.
+      split; [apply skeleton_to_dict_inv; exact HI|]. split; [exact E|].
+      destruct (@built_views g g' (Some Und) [] B) as (Vn & Ve & Vm).
+      split; [exact Vn|]. split; [exact Ve|].
+      rewrite <- (skeleton_to_dict_inv true HI).
+      rewrite <- (skeleton_to_dict_retype k g Und [] true).
+      destruct B as (HL & Hs & Hd & Hm).
+      assert (Pn : Permutation (map node3 (gnodes g')) (map node3 (gnodes g))).
+      { rewrite HL. symmetry. apply v_nodes_perm_gnodes. }
+      apply skeleton_to_dict_same_content.
+      + unfold node_ids. rewrite <- map_id3_node3.
+        eapply Permutation_NoDup; [apply Permutation_map, Permutation_sym, Pn|].
+        rewrite map_id3_node3. exact (inv_nodup_nodes HI).
+      + unfold edge_keys. rewrite Hs, map_key_retype. apply (sorted_edges_keys_nodup HI).
+      + split; [exact Pn|]. split; [|exact Hm].
+        cbn [retype_graph gsrc]. rewrite Hs. apply Permutation_map. symmetry.
+        apply sorted_edges_perm_gsrc.
+  Qed.
+
   (** * The validated round trip (validate = True, the default of [from_dict])
 
       Two facts proved elsewhere are taken as section hypotheses, in the exact shape of
@@ -1461,15 +1663,28 @@ Section Proofs.
       ([cycle_check_statement]). *)
   Lemma inv_empty k m : Inv parse k (empty_graph m).
   Proof.
-    constructor; simpl; try (intros; contradiction); try constructor; auto.
-    intros _. constructor; simpl; try (intros; contradiction); constructor.
+    constructor; simpl.
+    - constructor.
+    - constructor.
+    - constructor.
+    - intros e [].
+    - intros e [].
+    - intros e [].
+    - intros n [].
+    - intros n [].
+    - intros; split; reflexivity.
+    - intros Ek. constructor; simpl.
+      + intros n [].
+      + constructor.
+      + constructor.
+      + intros e [].
   Qed.
 
   Lemma add_edge_fst_snd k g sp dp ty m v g' :
-    fst (add_edge parse fmt k g sp dp ty m v) = Ok g' ->
-    snd (add_edge parse fmt k g sp dp ty m v) = g'.
+    fst (add_edge parse k g sp dp ty m v) = Ok g' ->
+    snd (add_edge parse k g sp dp ty m v) = g'.
   Proof.
-    unfold add_edge. destruct (add_edge_try parse fmt k g sp dp ty m v) as [[g2|e] gl]; simpl.
+    unfold add_edge. destruct (add_edge_try parse k g sp dp ty m v) as [[g2|e] gl]; simpl.
     - intros [= ->]; reflexivity.
     - discriminate.
   Qed.
@@ -1503,29 +1718,35 @@ Section Proofs.
         + rewrite fold_err; [discriminate|]. intros; reflexivity.
     Qed.
 
-    (** ** Theorem 2 (validate = True): an acyclic state round-trips through the default,
-        validating [from_dict] *)
-    Theorem roundtrip k g :
-      Inv parse k g -> (k = TS -> TagsStable g) -> Acyclic g ->
-      exists j g', to_dict k g true = Ok j
-        /\ from_dict parse fmt k j true = Ok g' /\ deep_eq_state g g'.
+    (** the validated core, generic in the class that reads the dictionary *)
+    Lemma validated_core k' k g :
+      Inv parse k g -> Acyclic g ->
+      (k' = TS -> forall n, In n (gnodes g) -> parse (nid n) <> None) ->
+      map (retag3 k') (v_nodes g) = v_nodes g ->
+      (forall e, In e (gsrc g) -> exists a b,
+         decode_edge parse k' (edge_json k g true None e)
+         = Ok ((esrc e, Some a), (edst e, Some b), ety e, emeta e)) ->
+      (k' = TS -> forall e, In e (gsrc g) -> exists ls ld,
+         node_lag g (esrc e) = Some ls /\ node_lag g (edst e) = Some ld /\ (ls <= ld)%Z) ->
+      exists g', from_dict parse fmt k' (dict_json k g true None true) true = Ok g'
+        /\ deep_eq_state g g'.
     Proof.
-      intros HI HT Hac.
+      intros HI Hac Hparse Hretag Hdecode Hlags.
       set (J := fun (_ : list edge) (h : graph) =>
-                  Inv parse k h /\ forall a b, arc (dgraph h) a b -> arc (dgraph g) a b).
-      destruct (@roundtrip_core k g true None true J HI HT) as (g' & E & B & _).
+                  Inv parse k' h /\ forall a b, arc (dgraph h) a b -> arc (dgraph g) a b).
+      destruct (@core_gen k' k g true None true J HI Hparse Hretag Hdecode Hlags)
+        as (g' & E & B & _).
       - intros g1 E1. split.
         + eapply add_nodes_inv; [apply inv_empty|exact E1].
-        + destruct (@nodes_stage k k g (gmeta g) (inv_nodup_nodes HI)) as (g1' & E1' & _ & S1 & _).
-          { intros Ek n Hn. subst k.
-            destruct (ts_nodeok (inv_ts HI eq_refl) n Hn) as (vv & l & P & _). congruence. }
+        + destruct (@nodes_stage k' k g (gmeta g) (inv_nodup_nodes HI) Hparse)
+            as (g1' & E1' & _ & S1 & _).
           assert (g1' = g1) by congruence. subst g1'.
           intros a b. unfold arc, dgraph; cbn [arcs]. rewrite S1. intros [].
       - intros done h e [HIh Hsub] HB He Hun.
         rewrite retype_none in *.
-        assert (HI' : Inv parse k (insert_edge h e)).
+        assert (HI' : Inv parse k' (insert_edge h e)).
         { unfold add_edge_step in Hun; cbn [bind] in Hun.
-          destruct (decode_edge parse k (edge_json k g true None e)) as [[[[sp dp] ty] m]|];
+          destruct (decode_edge parse k' (edge_json k g true None e)) as [[[[sp dp] ty] m]|];
             cbn [bind] in Hun; [|discriminate].
           pose proof (inv_step_H (OAddEdge sp dp ty (Some m) false) HIh) as HI'.
           cbn [run_op] in Hun, HI'. rewrite (add_edge_fst_snd _ _ _ _ _ _ _ Hun) in HI'.
@@ -1542,14 +1763,320 @@ Section Proofs.
         assert (Hd : In (edst e) (node_ids (insert_edge h e))).
         { unfold node_ids. rewrite <- map_id3_node3, insert_edge_node3, HL.
           apply v_nodes_ids. apply (inv_endpoints HI e He). }
-        destruct (cycle_check_H HI' Hd) as (b & Eb & Hb).
+        destruct (cycle_check_H (edst e) HI' Hd) as (b & Eb & Hb).
         destruct b; [|exact Eb].
         exfalso. apply (Hac (edst e)). eapply path_mono; [exact Hsub'|]. apply Hb; reflexivity.
-      - exists (dict_json k g true None true), g'. split; [apply to_dict_inv; exact HI|].
-        split; [exact E|].
+      - exists g'. split; [exact E|].
         destruct (@built_views g g' None (gmeta g) B) as (Vn & Ve & Vm).
         rewrite map_retype_none in Ve.
         unfold deep_eq_state. rewrite Vn, Ve, Vm. auto.
     Qed.
+
+    (** ** Theorem 2 (validate = True): an acyclic state round-trips through the default,
+        validating [from_dict] *)
+    Theorem roundtrip k g :
+      Inv parse k g -> (k = TS -> TagsStable g) -> Acyclic g ->
+      exists j g', to_dict k g true = Ok j
+        /\ from_dict parse fmt k j true = Ok g' /\ deep_eq_state g g'.
+    Proof.
+      intros HI HT Hac.
+      destruct (@validated_core k k g HI Hac) as (g' & E & D).
+      - intros Ek n Hn. subst k.
+        destruct (ts_nodeok (inv_ts HI eq_refl) n Hn) as (vv & l & P & _). congruence.
+      - apply (@retag3_v_nodes k g HI HT).
+      - intros e He. apply (@decode_edge_roundtrip k g None e HI He).
+      - intros Ek e He. subst k. apply (ts_time (inv_ts HI eq_refl) e He).
+      - exists (dict_json k g true None true), g'. split; [apply to_dict_inv; exact HI|]. auto.
+    Qed.
+
+    (** ** TimeSeriesCausalGraph -> CausalGraph through the dictionary
+        ([CausalGraph.from_dict(ts.to_dict())], validating): everything is kept, the two tags
+        included (they are ordinary metadata of the plain nodes) *)
+    Theorem ts_to_cg_deep_eq g :
+      Inv parse TS g -> Acyclic g ->
+      exists g', ts_to_cg parse fmt g = Ok g' /\ deep_eq_state g g'.
+    Proof.
+      intros HI Hac. unfold ts_to_cg. rewrite (@to_dict_inv TS g true HI). cbn [bind].
+      apply (@validated_core Plain TS g HI Hac).
+      - discriminate.
+      - rewrite (map_ext _ (fun t => t)); [apply map_id|]. intros [[a b] c]; reflexivity.
+      - intros e He. destruct (inv_endpoints HI e He) as [Hs Hd].
+        destruct (@get_node_in g _ Hs) as (ns & Gs & Ins & Es).
+        destruct (@get_node_in g _ Hd) as (nd & Gd & Ind & Ed).
+        rewrite (@decode_edge_json Plain TS g None e ns nd Gs Gd), !decode_node_json.
+        pose proof (inv_ts HI eq_refl) as HT.
+        destruct (ts_nodeok HT ns Ins) as (vs & ls & Ps & _).
+        destruct (ts_nodeok HT nd Ind) as (vd & ld & Pd & _).
+        rewrite Ps, Pd. cbn. rewrite Es, Ed. eexists; eexists; reflexivity.
+      - discriminate.
+    Qed.
+
+    (** ** [roundtrip_class]: the class of the result.  In the model the class is the [kind]
+        argument of [from_dict]; what it MEANS is that whatever [from_dict k] returns is a
+        well-formed state of class [k] (for [TS]: every node carries the tags parsed from its
+        identifier, the two lookup indexes list the nodes, no edge points backwards in time;
+        for [Plain]: no time-series index), for any dictionary whatsoever. *)
+    Lemma add_edges_inv k v : forall js g0 g1,
+      Inv parse k g0 -> fold_left (add_edge_step parse fmt k v) js (Ok g0) = Ok g1 ->
+      Inv parse k g1.
+    Proof.
+      induction js as [|j js IH]; intros g0 g1 HI; cbn [fold_left].
+      - intros [= <-]; exact HI.
+      - destruct (add_edge_step parse fmt k v (Ok g0) j) as [g0'|e] eqn:E.
+        + apply IH. unfold add_edge_step in E; cbn [bind] in E.
+          destruct (decode_edge parse k j) as [[[[sp dp] ty] m]|]; cbn [bind] in E; [|discriminate].
+          pose proof (inv_step_H (OAddEdge sp dp ty (Some m) v) HI) as HI'.
+          cbn [run_op] in E, HI'. rewrite (add_edge_fst_snd _ _ _ _ _ _ _ E) in HI'. exact HI'.
+        + rewrite fold_err; [discriminate|]. intros; reflexivity.
+    Qed.
+
+    Lemma add_groups_inv k v : forall gs g0 g1,
+      Inv parse k g0 -> fold_left (add_group_step parse fmt k v) gs (Ok g0) = Ok g1 ->
+      Inv parse k g1.
+    Proof.
+      induction gs as [|gj gs IH]; intros g0 g1 HI; cbn [fold_left].
+      - intros [= <-]; exact HI.
+      - destruct (add_group_step parse fmt k v (Ok g0) gj) as [g0'|e] eqn:E.
+        + apply IH. unfold add_group_step in E; cbn [bind] in E.
+          destruct (jobj gj) as [dests|]; cbn [bind] in E; [|discriminate].
+          eapply add_edges_inv; eassumption.
+        + rewrite fold_err; [discriminate|]. intros; reflexivity.
+    Qed.
+
+    Theorem from_dict_inv k j v g' : from_dict parse fmt k j v = Ok g' -> Inv parse k g'.
+    Proof.
+      unfold from_dict.
+      destruct (jget_opt s_meta j) as [mo|]; cbn [bind]; [|discriminate].
+      destruct (meta_of mo) as [m|]; cbn [bind]; [|discriminate].
+      destruct (jget s_nodes j) as [nj|]; cbn [bind]; [|discriminate].
+      destruct (jobj nj) as [nodes|]; cbn [bind]; [|discriminate].
+      destruct (fold_left (add_node_step parse fmt k) (map snd nodes) (Ok (empty_graph m)))
+        as [g1|] eqn:E1; cbn [bind]; [|discriminate].
+      destruct (jget s_edges j) as [ej|]; cbn [bind]; [|discriminate].
+      destruct (jobj ej) as [groups|]; cbn [bind]; [|discriminate].
+      apply add_groups_inv. eapply add_nodes_inv; [apply inv_empty|exact E1].
+    Qed.
+
+    Corollary roundtrip_class k g j v g' :
+      to_dict k g true = Ok j -> from_dict parse fmt k j v = Ok g' -> Inv parse k g'.
+    Proof. intros _; apply from_dict_inv. Qed.
   End Validated.
 End Proofs.
+
+(** * Examples: non-vacuity of the hypotheses and behaviour pinned to the real library
+    (evaluated with the verified name codec of Names.v) *)
+From CG Require Names DigraphProofs.
+Local Open Scope N_scope.
+
+Ltac nodup_tac := repeat constructor; simpl; intuition discriminate.
+Ltac in_cases H := simpl in H; repeat (destruct H as [H|H]; [subst|]); try contradiction.
+
+(** A time-series graph: y (binary, user metadata), x lag(n=1) -> x with nested edge metadata,
+    and the undirected edge given as y -- x lag(n=1), which the class stores earlier -> later. *)
+Definition ex_ts_ops : list op :=
+  [(OAddNode [121] VBin (Some [([97], (JInt (1)%Z))])); (OAddEdge ([120; 32; 108; 97; 103; 40; 110; 61; 49; 41], None) ([120], None) Dir (Some [([119], (JList [(JInt (1)%Z); (JObj [([113], JNull)])]))]) true); (OAddEdge ([121], None) ([120; 32; 108; 97; 103; 40; 110; 61; 49; 41], None) Und None true)].
+(** json.loads(json.dumps(g.to_dict())) of the real library for that history (version substituted) *)
+Definition ex_ts_dict_python : json :=
+  (JObj [([110; 111; 100; 101; 115], (JObj [([120], (JObj [([105; 100; 101; 110; 116; 105; 102; 105; 101; 114], (JStr [120])); ([118; 97; 114; 105; 97; 98; 108; 101; 95; 116; 121; 112; 101], (JStr [117; 110; 115; 112; 101; 99; 105; 102; 105; 101; 100])); ([110; 111; 100; 101; 95; 99; 108; 97; 115; 115], (JStr [84; 105; 109; 101; 83; 101; 114; 105; 101; 115; 78; 111; 100; 101])); ([109; 101; 116; 97], (JObj [([116; 105; 109; 101; 95; 108; 97; 103], (JInt (0)%Z)); ([118; 97; 114; 105; 97; 98; 108; 101; 95; 110; 97; 109; 101], (JStr [120]))])); ([116; 105; 109; 101; 95; 108; 97; 103], (JInt (0)%Z)); ([118; 97; 114; 105; 97; 98; 108; 101; 95; 110; 97; 109; 101], (JStr [120]))])); ([120; 32; 108; 97; 103; 40; 110; 61; 49; 41], (JObj [([105; 100; 101; 110; 116; 105; 102; 105; 101; 114], (JStr [120; 32; 108; 97; 103; 40; 110; 61; 49; 41])); ([118; 97; 114; 105; 97; 98; 108; 101; 95; 116; 121; 112; 101], (JStr [117; 110; 115; 112; 101; 99; 105; 102; 105; 101; 100])); ([110; 111; 100; 101; 95; 99; 108; 97; 115; 115], (JStr [84; 105; 109; 101; 83; 101; 114; 105; 101; 115; 78; 111; 100; 101])); ([109; 101; 116; 97], (JObj [([116; 105; 109; 101; 95; 108; 97; 103], (JInt (-1)%Z)); ([118; 97; 114; 105; 97; 98; 108; 101; 95; 110; 97; 109; 101], (JStr [120]))])); ([116; 105; 109; 101; 95; 108; 97; 103], (JInt (-1)%Z)); ([118; 97; 114; 105; 97; 98; 108; 101; 95; 110; 97; 109; 101], (JStr [120]))])); ([121], (JObj [([105; 100; 101; 110; 116; 105; 102; 105; 101; 114], (JStr [121])); ([118; 97; 114; 105; 97; 98; 108; 101; 95; 116; 121; 112; 101], (JStr [98; 105; 110; 97; 114; 121])); ([110; 111; 100; 101; 95; 99; 108; 97; 115; 115], (JStr [84; 105; 109; 101; 83; 101; 114; 105; 101; 115; 78; 111; 100; 101])); ([109; 101; 116; 97], (JObj [([97], (JInt (1)%Z)); ([116; 105; 109; 101; 95; 108; 97; 103], (JInt (0)%Z)); ([118; 97; 114; 105; 97; 98; 108; 101; 95; 110; 97; 109; 101], (JStr [121]))])); ([116; 105; 109; 101; 95; 108; 97; 103], (JInt (0)%Z)); ([118; 97; 114; 105; 97; 98; 108; 101; 95; 110; 97; 109; 101], (JStr [121]))]))])); ([101; 100; 103; 101; 115], (JObj [([120; 32; 108; 97; 103; 40; 110; 61; 49; 41], (JObj [([120], (JObj [([115; 111; 117; 114; 99; 101], (JObj [([105; 100; 101; 110; 116; 105; 102; 105; 101; 114], (JStr [120; 32; 108; 97; 103; 40; 110; 61; 49; 41])); ([118; 97; 114; 105; 97; 98; 108; 101; 95; 116; 121; 112; 101], (JStr [117; 110; 115; 112; 101; 99; 105; 102; 105; 101; 100])); ([110; 111; 100; 101; 95; 99; 108; 97; 115; 115], (JStr [84; 105; 109; 101; 83; 101; 114; 105; 101; 115; 78; 111; 100; 101])); ([109; 101; 116; 97], (JObj [([116; 105; 109; 101; 95; 108; 97; 103], (JInt (-1)%Z)); ([118; 97; 114; 105; 97; 98; 108; 101; 95; 110; 97; 109; 101], (JStr [120]))])); ([116; 105; 109; 101; 95; 108; 97; 103], (JInt (-1)%Z)); ([118; 97; 114; 105; 97; 98; 108; 101; 95; 110; 97; 109; 101], (JStr [120]))])); ([100; 101; 115; 116; 105; 110; 97; 116; 105; 111; 110], (JObj [([105; 100; 101; 110; 116; 105; 102; 105; 101; 114], (JStr [120])); ([118; 97; 114; 105; 97; 98; 108; 101; 95; 116; 121; 112; 101], (JStr [117; 110; 115; 112; 101; 99; 105; 102; 105; 101; 100])); ([110; 111; 100; 101; 95; 99; 108; 97; 115; 115], (JStr [84; 105; 109; 101; 83; 101; 114; 105; 101; 115; 78; 111; 100; 101])); ([109; 101; 116; 97], (JObj [([116; 105; 109; 101; 95; 108; 97; 103], (JInt (0)%Z)); ([118; 97; 114; 105; 97; 98; 108; 101; 95; 110; 97; 109; 101], (JStr [120]))])); ([116; 105; 109; 101; 95; 108; 97; 103], (JInt (0)%Z)); ([118; 97; 114; 105; 97; 98; 108; 101; 95; 110; 97; 109; 101], (JStr [120]))])); ([101; 100; 103; 101; 95; 116; 121; 112; 101], (JStr [45; 62])); ([109; 101; 116; 97], (JObj [([119], (JList [(JInt (1)%Z); (JObj [([113], JNull)])]))]))])); ([121], (JObj [([115; 111; 117; 114; 99; 101], (JObj [([105; 100; 101; 110; 116; 105; 102; 105; 101; 114], (JStr [120; 32; 108; 97; 103; 40; 110; 61; 49; 41])); ([118; 97; 114; 105; 97; 98; 108; 101; 95; 116; 121; 112; 101], (JStr [117; 110; 115; 112; 101; 99; 105; 102; 105; 101; 100])); ([110; 111; 100; 101; 95; 99; 108; 97; 115; 115], (JStr [84; 105; 109; 101; 83; 101; 114; 105; 101; 115; 78; 111; 100; 101])); ([109; 101; 116; 97], (JObj [([116; 105; 109; 101; 95; 108; 97; 103], (JInt (-1)%Z)); ([118; 97; 114; 105; 97; 98; 108; 101; 95; 110; 97; 109; 101], (JStr [120]))])); ([116; 105; 109; 101; 95; 108; 97; 103], (JInt (-1)%Z)); ([118; 97; 114; 105; 97; 98; 108; 101; 95; 110; 97; 109; 101], (JStr [120]))])); ([100; 101; 115; 116; 105; 110; 97; 116; 105; 111; 110], (JObj [([105; 100; 101; 110; 116; 105; 102; 105; 101; 114], (JStr [121])); ([118; 97; 114; 105; 97; 98; 108; 101; 95; 116; 121; 112; 101], (JStr [98; 105; 110; 97; 114; 121])); ([110; 111; 100; 101; 95; 99; 108; 97; 115; 115], (JStr [84; 105; 109; 101; 83; 101; 114; 105; 101; 115; 78; 111; 100; 101])); ([109; 101; 116; 97], (JObj [([97], (JInt (1)%Z)); ([116; 105; 109; 101; 95; 108; 97; 103], (JInt (0)%Z)); ([118; 97; 114; 105; 97; 98; 108; 101; 95; 110; 97; 109; 101], (JStr [121]))])); ([116; 105; 109; 101; 95; 108; 97; 103], (JInt (0)%Z)); ([118; 97; 114; 105; 97; 98; 108; 101; 95; 110; 97; 109; 101], (JStr [121]))])); ([101; 100; 103; 101; 95; 116; 121; 112; 101], (JStr [45; 45])); ([109; 101; 116; 97], (JObj []))]))]))])); ([118; 101; 114; 115; 105; 111; 110], (JStr [36; 86; 69; 82; 83; 73; 79; 78])); ([109; 101; 116; 97], (JObj [([103; 109], (JBool true))]))]).
+Definition ex_plain_ops : list op :=
+  [(OAddNode [121] VOrd (Some [([116; 105; 109; 101; 95; 108; 97; 103], (JInt (7)%Z)); ([117], (JStr [115]))])); (OAddEdge ([120], None) ([120; 32; 108; 97; 103; 40; 110; 61; 50; 41], None) Und (Some [([119], (JInt (1)%Z))]) true); (OAddEdge ([120; 32; 108; 97; 103; 40; 110; 61; 50; 41], None) ([121], None) Dir None true)].
+
+Definition ex_ts : graph :=
+  run Names.parse Names.fmt TS ex_ts_ops (empty_graph [([103; 109], JBool true)]).
+
+(** the model writes exactly the dictionary the library writes *)
+Example ex_ts_to_dict : to_dict TS ex_ts true = Ok ex_ts_dict_python.
+Proof. vm_compute. reflexivity. Qed.
+
+Lemma ex_ts_inv : Inv Names.parse TS ex_ts.
+Proof.
+  constructor.
+  - vm_compute. nodup_tac.
+  - vm_compute. apply Permutation_refl.
+  - vm_compute. nodup_tac.
+  - intros e H. vm_compute in H. in_cases H; vm_compute; intuition.
+  - intros e H. vm_compute in H. in_cases H; vm_compute; discriminate.
+  - intros e H. vm_compute in H. in_cases H; vm_compute; intuition discriminate.
+  - intros n H. vm_compute in H. in_cases H; vm_compute; apply Permutation_refl.
+  - intros n H. vm_compute in H. in_cases H; vm_compute; apply Permutation_refl.
+  - discriminate.
+  - intros _. constructor.
+    + intros n H. vm_compute in H.
+      in_cases H; eexists; eexists; (split; [|split]); vm_compute; reflexivity.
+    + vm_compute. repeat constructor.
+    + vm_compute. repeat constructor.
+    + intros e H. vm_compute in H.
+      in_cases H; eexists; eexists; (split; [|split]);
+        try (vm_compute; reflexivity); vm_compute; discriminate.
+Qed.
+
+Lemma ex_ts_tags_stable : TagsStable ex_ts.
+Proof.
+  apply tags_stable_sorted. intros n H. vm_compute in H.
+  in_cases H; unfold meta_sorted; simpl; repeat constructor.
+Qed.
+
+Lemma ex_ts_acyclic : Acyclic ex_ts.
+Proof.
+  assert (Hwf : wf (dgraph ex_ts)).
+  { split; [vm_compute; nodup_tac|].
+    intros a b H. vm_compute in H. in_cases H. injection H as <- <-. vm_compute. intuition. }
+  apply (proj1 (DigraphProofs.acyclicb_spec name_eqb name_eqb_spec Hwf)).
+  vm_compute. reflexivity.
+Qed.
+
+(** the hypotheses of Theorems 1-3 hold of a non-trivial state, and the conclusions can be
+    observed by evaluation *)
+Example ex_ts_roundtrip :
+  match from_dict Names.parse Names.fmt TS ex_ts_dict_python false with
+  | Ok g' => deep_eqb ex_ts g' = true /\ to_dict TS g' true = Ok ex_ts_dict_python
+  | Err _ => False
+  end.
+Proof. vm_compute. split; reflexivity. Qed.
+
+Example ex_ts_roundtrip_validated :
+  match from_dict Names.parse Names.fmt TS ex_ts_dict_python true with
+  | Ok g' => deep_eqb ex_ts g' = true
+  | Err _ => False
+  end.
+Proof. vm_compute. reflexivity. Qed.
+
+(** same content, different construction order: same ordered dictionary (Theorem 1) *)
+Definition ex_ts_ops_permuted : list op :=
+  [OAddEdge ([120; 32; 108; 97; 103; 40; 110; 61; 49; 41], None) ([120], None) Dir
+     (Some [([119], JList [JInt 1%Z; JObj [([113], JNull)]])]) true;
+   OAddEdge ([121], None) ([120; 32; 108; 97; 103; 40; 110; 61; 49; 41], None) Und None true;
+   OReplaceNode [121] None None None (Some VBin) (Some [([97], JInt 1%Z)])].
+Definition ex_ts_permuted : graph :=
+  run Names.parse Names.fmt TS ex_ts_ops_permuted (empty_graph [([103; 109], JBool true)]).
+
+Example ex_ts_permuted_differs : gnodes ex_ts_permuted <> gnodes ex_ts.
+Proof. vm_compute. discriminate. Qed.
+
+Example ex_ts_permuted_same_content : same_content ex_ts ex_ts_permuted.
+Proof.
+  split; [|split].
+  - vm_compute.
+    match goal with |- Permutation [?a; ?b; ?c] [?b; ?c; ?a] =>
+      apply (Permutation_trans (l' := [b; a; c])); [apply perm_swap|apply perm_skip, perm_swap]
+    end.
+  - vm_compute. apply Permutation_refl.
+  - reflexivity.
+Qed.
+
+Example ex_ts_permuted_to_dict : to_dict TS ex_ts_permuted true = to_dict TS ex_ts true.
+Proof. vm_compute. reflexivity. Qed.
+
+(** the Skeleton view: every edge '--', no graph metadata; round trip through the validating
+    [from_dict] of the same class *)
+Example ex_ts_skeleton :
+  match skeleton_to_dict TS ex_ts true with
+  | Ok j =>
+      match skeleton_from_dict Names.parse Names.fmt TS j with
+      | Ok g' => skeleton_to_dict TS g' true = Ok j
+                 /\ map ety (v_edges g') = [Und; Und] /\ gmeta g' = []
+      | Err _ => False
+      end
+  | Err _ => False
+  end.
+Proof. vm_compute. repeat split; reflexivity. Qed.
+
+(** A plain graph over time-series style names: x -- x lag(n=2) is given later -> earlier,
+    x lag(n=2) -> y respects time, y carries a stale 'time_lag' entry in its metadata. *)
+Definition ex_plain : graph :=
+  run Names.parse Names.fmt Plain ex_plain_ops (empty_graph [([103; 109], JInt 1%Z)]).
+
+Lemma ex_plain_inv : Inv Names.parse Plain ex_plain.
+Proof.
+  constructor.
+  - vm_compute. nodup_tac.
+  - vm_compute. apply Permutation_refl.
+  - vm_compute. nodup_tac.
+  - intros e H. vm_compute in H. in_cases H; vm_compute; intuition.
+  - intros e H. vm_compute in H. in_cases H; vm_compute; discriminate.
+  - intros e H. vm_compute in H. in_cases H; vm_compute; intuition discriminate.
+  - intros n H. vm_compute in H. in_cases H; vm_compute; apply Permutation_refl.
+  - intros n H. vm_compute in H. in_cases H; vm_compute; apply Permutation_refl.
+  - intros _. vm_compute. split; reflexivity.
+  - discriminate.
+Qed.
+
+Lemma ex_plain_all_parse : all_parse Names.parse ex_plain.
+Proof. intros n H. vm_compute in H. in_cases H; vm_compute; discriminate. Qed.
+
+Lemma ex_plain_time :
+  forall e, In e (gsrc ex_plain) -> ety e = Dir ->
+            (lagp Names.parse (esrc e) <= lagp Names.parse (edst e))%Z.
+Proof. intros e H. vm_compute in H. in_cases H; vm_compute; discriminate. Qed.
+
+(** observed on the library: from_causal_graph stores x lag(n=2) -- x (flipped) and
+    x lag(n=2) -> y; the stale time_lag 7 of y is overwritten by 0, 'u' is kept *)
+Example ex_cg_to_ts :
+  match from_causal_graph Names.parse Names.fmt ex_plain with
+  | Ok g' =>
+      map edge4 (v_edges g')
+      = [([120; 32; 108; 97; 103; 40; 110; 61; 50; 41], [120], Und, [([119], JInt 1%Z)]);
+         ([120; 32; 108; 97; 103; 40; 110; 61; 50; 41], [121], Dir, [])]
+      /\ v_nodes g'
+         = [([120], VUnspec, set_tags [120] 0%Z []);
+            ([120; 32; 108; 97; 103; 40; 110; 61; 50; 41], VUnspec, set_tags [120] (-2)%Z []);
+            ([121], VOrd, [(k_time_lag, JInt 0%Z); ([117], JStr [115]);
+                           (k_variable_name, JStr [121])])]
+      /\ gmeta g' = [([103; 109], JInt 1%Z)]
+  | Err _ => False
+  end.
+Proof. vm_compute. repeat split; reflexivity. Qed.
+
+(** the directed edge x -> x lag(n=1) is refused with ValueError *)
+Definition ex_plain_bad : graph :=
+  run Names.parse Names.fmt Plain
+    [OAddEdge ([120], None) ([120; 32; 108; 97; 103; 40; 110; 61; 49; 41], None) Dir None true]
+    (empty_graph []).
+
+Example ex_cg_to_ts_rejected : from_causal_graph Names.parse Names.fmt ex_plain_bad = Err EValue.
+Proof. vm_compute. reflexivity. Qed.
+
+Example ex_plain_bad_hyp :
+  exists e, In e (gsrc ex_plain_bad) /\ ety e = Dir
+            /\ (lagp Names.parse (edst e) < lagp Names.parse (esrc e))%Z.
+Proof. eexists; split; [left; reflexivity|]. split; [reflexivity|vm_compute; reflexivity]. Qed.
+
+(** [Inv] alone does not make the time-series round trip deep-equal: the metadata lists
+    must be key-sorted (or come from [set_tags]).  A state satisfying [Inv] whose only node
+    has its tags AFTER a larger user key is rebuilt with the tags duplicated in front. *)
+Definition ex_unsorted : graph :=
+  {| gnodes := [{| nid := [120]; nvt := VUnspec;
+                   nmeta := [([122], JInt 1%Z); (k_time_lag, JInt 0%Z);
+                             (k_variable_name, JStr [120])];
+                   ninb := []; noutb := [] |}];
+     gsrc := []; gdst := []; gmeta := [];
+     glag := [(0%Z, [120])]; gvar := [([120], [120])] |}.
+
+Lemma ex_unsorted_inv : Inv Names.parse TS ex_unsorted.
+Proof.
+  constructor.
+  - vm_compute. nodup_tac.
+  - apply Permutation_refl.
+  - constructor.
+  - intros e [].
+  - intros e [].
+  - intros e [].
+  - intros n H. in_cases H. apply Permutation_refl.
+  - intros n H. in_cases H. apply Permutation_refl.
+  - discriminate.
+  - intros _. constructor.
+    + intros n H. in_cases H. eexists; eexists; (split; [|split]); vm_compute; reflexivity.
+    + repeat constructor.
+    + repeat constructor.
+    + intros e [].
+Qed.
+
+Example ex_unsorted_not_stable :
+  match to_dict TS ex_unsorted true with
+  | Ok j => match from_dict Names.parse Names.fmt TS j false with
+            | Ok g' => deep_eqb ex_unsorted g' = false
+            | Err _ => False
+            end
+  | Err _ => False
+  end.
+Proof. vm_compute. reflexivity. Qed.
